@@ -524,10 +524,12 @@ func checkDbChunksInductive(ctx *Ctx, roles *EmitterRoles, lineS *types.Struct, 
 			continue
 		}
 		nNext++
-		chunkKey := "(0+and(" + idx.Lin.Key() + ",f)==f)"
+		// under "byte i completes a line": i mod 16 == 15, however it is spelled
 		full := false
-		for _, g := range se.GuardL {
-			if g.Key == chunkKey && g.Outcome {
+		k15 := absint.NewConst(idx.W, 15, idx.Signed)
+		if wantProp, wantVal := propName("==", ip.Ops.And(idx, k15), k15); wantProp != "" {
+			props := guardProps(&absint.BoolCtx{Conds: ip.In.Conds}, se.GuardL)
+			if v, ok := props[wantProp]; ok && v == wantVal {
 				full = true
 			}
 		}
